@@ -94,6 +94,10 @@ def programs():
         out.append(("%s/assign_target" % et, su + A + "Speichere %s in l an der Stelle i.\n" % newv + pr("l") + Bm, m_assign))
         fn = ("Die Funktion setze mit dem Parameter r vom Typ %s, gibt nichts zurück, macht:\n\tSpeichere %s in r.\nUnd kann so benutzt werden:\n\t\"setze <r>\"\n" % (REFNAME[et], newv))
         out.append(("%s/referenz_arg" % et, HEAD + fn + list_setup(et) + A + "setze (l an der Stelle i).\n" + pr("l") + Bm, m_assign))
+        # the same assignable forms with an index of static type Byte (the code generator converts the index per access form)
+        byte_m = lambda n, i, j, f=m_assign: f(n, i & 0xFF, j)
+        out.append(("%s/assign_target_byteindex" % et, su + A + "Speichere %s in l an der Stelle (i als Byte).\n" % newv + pr("l") + Bm, byte_m))
+        out.append(("%s/referenz_arg_byteindex" % et, HEAD + fn + list_setup(et) + A + "setze (l an der Stelle (i als Byte)).\n" + pr("l") + Bm, byte_m))
         if et in ("Zahl", "Kommazahl", "Byte"):
             def m_comp(n, i, j, et=et):
                 l = model_list(et, n)
@@ -103,6 +107,7 @@ def programs():
                 l[i - 1] = {"Zahl": str(k * 10 + 1), "Kommazahl": ("%.16g" % (k + 1.5)).replace(".", ","), "Byte": str((k + 1) & 0xFF)}[et]
                 return show_list(l) + "\n", False
             out.append(("%s/compound_target" % et, su + A + "Erhöhe l an der Stelle i um 1.\n" + pr("l") + Bm, m_comp))
+            out.append(("%s/compound_target_byteindex" % et, su + A + "Erhöhe l an der Stelle (i als Byte) um 1.\n" + pr("l") + Bm, lambda n, i, j, f=m_comp: f(n, i & 0xFF, j)))
 
         def m_slice(n, i, j, et=et):
             r, err = clamp_slice(model_list(et, n), i, j)
@@ -125,6 +130,8 @@ def programs():
         s = ALPHA[:n]
         return s[:i - 1] + "Q" + s[i:] + "\n", False
     out.append(("TextSrc/assign_target", tsu + A + "Speichere 'Q' in l an der Stelle i.\nSchreibe l auf eine Zeile.\n" + Bm, t_assign))
+    out.append(("TextSrc/rvalue_byteindex", tsu + A + "Schreibe (l an der Stelle (i als Byte)) auf eine Zeile.\n" + Bm, lambda n, i, j: t_index(n, i & 0xFF, j)))
+    out.append(("TextSrc/assign_target_byteindex", tsu + A + "Speichere 'Q' in l an der Stelle (i als Byte).\nSchreibe l auf eine Zeile.\n" + Bm, lambda n, i, j: t_assign(n, i & 0xFF, j)))
 
     def t_assign_wide(n, i, j):
         if not (1 <= i <= n):
